@@ -492,6 +492,7 @@ type FuncSpec struct {
 	Loops        map[int]*LoopSpec
 	Flags        map[string]string // pure, nonblocking, trusted, assumed, checknil ...
 	Uses         []string          // lemma names
+	UsesAt       []*LemmaUse
 	Props        []string          // property ids this function serves
 	File         string
 	Line         int
@@ -515,12 +516,21 @@ type SpecFunc struct {
 	Line    int
 }
 
+// LemmaUse: a lemma instantiated at given arguments (use lemma NAME with ...).
+type LemmaUse struct {
+	Name string
+	Args map[string]SExpr
+	Line int
+}
+
 type Lemma struct {
 	Name     string
 	Params   []SVar
 	Requires []*Clause
 	Ensures  []*Clause
 	Induct   string // variable for induction ("" = none)
+	UsesAt   []*LemmaUse
+	Patterns []SExpr // terms of the instantiation pattern used when the lemma is assumed (one multi-pattern)
 	Uses     []string
 	PkgPath  string
 	File     string
@@ -559,7 +569,7 @@ type SpecFile struct {
 
 var clauseKeywords = map[string]bool{
 	"requires": true, "ensures": true, "modifies": true, "invariant": true, "loop": true,
-	"iter": true, "exit": true, "decreases": true, "emits": true, "recvinv": true, "flag": true, "use": true, "prop": true, "induction": true,
+	"iter": true, "exit": true, "decreases": true, "emits": true, "recvinv": true, "flag": true, "use": true, "prop": true, "induction": true, "pattern": true,
 	"field": true, "assumed": true, "pure": true, "end": true,
 }
 var headerKeywords = map[string]bool{"func": true, "type": true, "spec": true, "lemma": true, "ghost": true, "axiom": true, "package": true}
@@ -812,6 +822,28 @@ func parseSpecText(path, pkgPath string, lines []string, lineNos []int) (*SpecFi
 				curF.Assumed = true
 			}
 		case "use":
+			if k := strings.Index(rest, " with "); k >= 0 && (curF != nil || curL != nil) {
+				// use lemma NAME with p = expr; q = expr : the lemma instantiated at these arguments (the other
+				// parameters stay universally quantified), assumed at every exit of the function
+				lu := &LemmaUse{Name: strings.TrimSpace(strings.TrimPrefix(strings.TrimSpace(rest[:k]), "lemma")), Args: map[string]SExpr{}, Line: it.line}
+				for _, part := range splitTopLevel(rest[k+6:], ';') {
+					eq := strings.Index(part, "=")
+					if eq < 0 {
+						return nil, fmt.Errorf("%s:%d: use ... with: expected name = expr", path, it.line)
+					}
+					e, err := parseSpecExpr(strings.TrimSpace(part[eq+1:]))
+					if err != nil {
+						return nil, fmt.Errorf("%s:%d: %v", path, it.line, err)
+					}
+					lu.Args[strings.TrimSpace(part[:eq])] = e
+				}
+				if curF != nil {
+					curF.UsesAt = append(curF.UsesAt, lu)
+				} else {
+					curL.UsesAt = append(curL.UsesAt, lu)
+				}
+				break
+			}
 			names := strings.Fields(strings.ReplaceAll(strings.TrimPrefix(rest, "lemma"), ",", " "))
 			switch {
 			case curF != nil:
@@ -832,6 +864,17 @@ func parseSpecText(path, pkgPath string, lines []string, lineNos []int) (*SpecFi
 				return nil, fmt.Errorf("%s:%d: induction outside lemma", path, it.line)
 			}
 			curL.Induct = strings.TrimSpace(strings.TrimPrefix(rest, "on"))
+		case "pattern":
+			if curL == nil {
+				return nil, fmt.Errorf("%s:%d: pattern outside lemma", path, it.line)
+			}
+			for _, part := range splitTopLevel(rest, ';') {
+				e, err := parseSpecExpr(strings.TrimSpace(part))
+				if err != nil {
+					return nil, fmt.Errorf("%s:%d: %v", path, it.line, err)
+				}
+				curL.Patterns = append(curL.Patterns, e)
+			}
 		case "field":
 			if curT == nil {
 				return nil, fmt.Errorf("%s:%d: field outside type", path, it.line)
@@ -923,4 +966,24 @@ func splitConj(e SExpr) []SExpr {
 		return out
 	}
 	return []SExpr{e}
+}
+
+// splitTopLevel splits at sep outside parentheses and brackets.
+func splitTopLevel(s string, sep rune) []string {
+	var out []string
+	depth, start := 0, 0
+	for i, r := range s {
+		switch r {
+		case '(', '[':
+			depth++
+		case ')', ']':
+			depth--
+		default:
+			if r == sep && depth == 0 {
+				out = append(out, s[start:i])
+				start = i + 1
+			}
+		}
+	}
+	return append(out, s[start:])
 }
